@@ -37,7 +37,19 @@ def main():
             else:
                 print('replay file names broken obligations only:', rp.get('broken_obligations'))
         else:
-            for runner, args in plug.generate(ctx):
+            gen = iter(plug.generate(ctx))
+            while True:
+                try:
+                    runner, args = next(gen)
+                except StopIteration:
+                    break
+                except Exception:
+                    # the implementation (or the plugin) raised while cases were being generated:
+                    # an obligation that no longer checks, not a crash of the check
+                    ctx.cur = ('<generate>', None)
+                    ctx.mismatches.append(dict(ctx._where(), what='exception while generating cases',
+                                               detail=traceback.format_exc()[-1500:]))
+                    break
                 ctx.begin_case(runner, args, nontrivial=args.get('_nontrivial', True) if isinstance(args, dict) else True)
                 try:
                     plug.RUNNERS[runner](ctx, args)
